@@ -35,7 +35,7 @@ def run(ctx):
     ctx.extra['census'] = {'sites': n, 'discharged_by_bounds_or_guards': nd, 'allow_listed': na}
     ctx.floor('R20.1 census sites', n, 15)
     # precondition of the allow-listed slice: every caller of remove_before_joint passes a to_lowercase() result
-    rb = [b for p, b in prog.bodies.items() if p.endswith('::remove_before_joint')]
+    rb = [b for p, b in prog.bodies.items() if p.startswith('simplify_joint_name::') and b.kind == 'Fn' and any(cname(callee_name(t)) == 'str::find' for _, t in b.calls())]
     if rb:
         okc = True
         nsite = 0
@@ -48,7 +48,8 @@ def run(ctx):
         ctx.check(okc and nsite >= 1, 'R20.1', 'slice-precondition', rb[0].where(0), rb[0].path, 'remove_before_joint must only be called with an already lower-cased string (its s[pos..] slice relies on it)')
 
     # ---- R20.2
-    cj = util.find_one(ctx, suffix='urdf::collect_joints')
+    cj = util.find_role(ctx, 'recursive joint collector: fn(Element, &mut Vec<JointData>, ..)',
+                        lambda b, sg: len(sg) >= 3 and 'Element' in sg[1] and 'Vec<urdf::JointData>' in sg[2].replace('std::vec::', ''), module='urdf::', called_from=[fu])
     jd = None
     for i, j, st in cj.stmts():
         if st['rv']['k'] == 'agg' and 'JointData' in str(st['rv']['kind']):
@@ -90,7 +91,8 @@ def run(ctx):
                   'a joint without limits (from = to = 0) must accept every angle, but the membership test answers %s' % sorted(map(str, res)), found=sorted(map(str, res)))
 
     # ---- R20.3
-    cm = util.find_one(ctx, suffix='urdf::convert_to_map')
+    cm = util.find_role(ctx, 'name map builder: fn(Vec<JointData>) -> Result<HashMap<String, JointData>, ..>',
+                        lambda b, sg: 'HashMap' in sg[0] and 'JointData' in sg[0] and len(sg) == 2 and 'Vec<urdf::JointData>' in sg[1].replace('std::vec::', ''), module='urdf::', called_from=[fu])
     ins = [(bi, t2) for bi, t2 in cm.calls() if cname(callee_name(t2)) == 'HashMap::insert']
     ok_ins = False
     for bi, t2 in ins:
@@ -109,9 +111,10 @@ def run(ctx):
               found='insert-on-absent=%s err-on-different=%s' % (ok_ins, ok_err))
 
     # ---- R20.4
-    pp = util.find_one(ctx, suffix='urdf::populate_opw_parameters')
-    opl = [l for l, nme in pp.names.items() if nme == 'opw_parameters']
-    ctx.require(len(opl) == 1, 'local opw_parameters')
+    pp = util.find_role(ctx, 'URDF parameter mapping helper: fn(HashMap<String, JointData>, ..) -> Result<URDFParameters, String> called by from_urdf',
+                        lambda b, sg: 'URDFParameters' in sg[0] and 'Result' in sg[0] and 'HashMap' in sg[1], module='urdf::', called_from=[fu])
+    opl = [l for l in util.locals_of_type(pp, lambda t: t == 'urdf::URDFParameters') if l in pp.names]
+    ctx.require(len(opl) == 1, 'the URDFParameters value being populated')
     arms = {}
     slots_ok = {}
     for i, j, st in pp.stmts():
@@ -170,7 +173,8 @@ def run(ctx):
               'every child element must be searched for joints, whatever it is (otherwise nesting changes the result)', found=found)
 
     # ---- R20.6 regex constant table
-    pa = util.find_one(ctx, suffix='urdf::parse_angle')
+    pa = util.find_role(ctx, 'angle parser: fn(&str) -> Result<f64, ParameterError> constructing a Regex',
+                        lambda b, sg: sg[1:] == ['&str'] and 'Result<f64' in sg[0] and any(cname(callee_name(t)) == 'Regex::new' for _, t in b.calls()), module='urdf::', called_from=[fu])
     pats = []
     grp = None
     for bi, t2 in pa.calls():
